@@ -70,6 +70,22 @@ STRAIN_CALLS = {"_Calc_Epsilon_e_pg", "_Calc_GreenLagrange"}
 STRESS_CALLS = {"_Calc_Sigma_e_pg", "_Calc_SecondPiolaKirchhoff", "Compute_stress"}
 
 
+def tensor_dim(cname, dim, kind):
+    """dimension of the tensor a strain/stress array of class `cname` carries.  HyperElastic's
+    Green-Lagrange strain is always the full 3x3 tensor (`Compute_GreenLagrange` pads to 3x3,
+    `Project_Kelvin` gives 6 components); checked against the running code by the
+    model-vs-implementation comparison of every run."""
+    if cname == "HyperElastic" and kind == "strain":
+        return 3
+    return dim
+
+
+def tensor_ncomp(cname, dim, kind):
+    if cname == "Beam":
+        return {"strain": {1: 1, 2: 2, 3: 4}, "stress": {1: 1, 2: 3, 3: 6}}[kind][dim]
+    return {2: 3, 3: 6}[tensor_dim(cname, dim, kind)]
+
+
 class PyRaise(Exception):
     """the interpreted code executes `raise`"""
 
@@ -562,13 +578,8 @@ class Interp:
             return ("bound", base, n.attr)
         return opaque(src)
 
-    def tensor_of(self, kind):
-        dim = self.cfg["dim"]
-        if self.cls.name == "Beam":
-            ncomp = {"strain": {1: 1, 2: 2, 3: 4}, "stress": {1: 1, 2: 3, 3: 6}}[kind][dim]
-        else:
-            ncomp = {2: 3, 3: 6}[dim]
-        return Tensor(kind, ncomp)
+    def tensor_of(self, kind, method=""):
+        return Tensor(kind, tensor_ncomp(self.cls.name, self.cfg["dim"], kind))
 
     def call(self, n, env):
         src = ast.unparse(n)
@@ -637,6 +648,11 @@ class Interp:
                         raise PyRaise("ValueError: %s" % ex)
                 base.reverse()
                 return None
+            if isinstance(base, str) and f.attr in ("index", "find", "startswith", "endswith", "lower", "upper", "count") and not any(is_sym(a) for a in args):
+                try:
+                    return getattr(base, f.attr)(*args)
+                except ValueError as ex:
+                    raise PyRaise("ValueError: %s" % ex)
             if isinstance(base, dict) and f.attr in ("items", "keys", "values", "get"):
                 if f.attr == "get":
                     return base.get(*args)
@@ -848,7 +864,8 @@ def translate(repo):
                 except PyRaise as ex:
                     e = ("raises", str(ex)[:80])
                 table[name] = e
-            rec["configs"].append({"cfg": cfg["name"], "dim": cfg["dim"], "advertised": list(adv), "table": table})
+            rec["configs"].append({"cfg": cfg["name"], "dim": cfg["dim"], "edim": tensor_dim(cname, cfg["dim"], "strain"),
+                                   "sdim": tensor_dim(cname, cfg["dim"], "stress"), "advertised": list(adv), "table": table})
         out["classes"][cname] = rec
     # von Mises formulas + Kelvin-Mandel rescale straight from Models/_utils.py
     dummy = load_class(repo, "Elastic")
@@ -939,13 +956,15 @@ def emit_coq(tr):
          " | ETens (stress : bool) (k : nat) (resc : bool) (* Gauss-point mean of component k, times 1/coef iff resc *)",
          " | EVm (stress : bool) | ETensAll (stress : bool)",
          " | EOpaque | ENoBranch | ERaises.", "",
-         "Record simtab := { t_class : string; t_cfg : string; t_dim : nat; t_adv : list string; t_tab : list (string * entry) }.", ""]
+         "(* t_dim: space dimension; t_edim / t_sdim: dimension of the tensor carried by the strain / stress arrays *)",
+         "Record simtab := { t_class : string; t_cfg : string; t_dim : nat; t_edim : nat; t_sdim : nat; t_adv : list string; t_tab : list (string * entry) }.", ""]
     names = []
     for cname, rec in tr["classes"].items():
         for c in rec["configs"]:
             ident = "tab_%s_%s" % (cname, c["cfg"])
             names.append(ident)
-            L.append("Definition %s : simtab := {| t_class := %s; t_cfg := %s; t_dim := %d;" % (ident, coq_str(cname), coq_str(c["cfg"]), c["dim"]))
+            L.append("Definition %s : simtab := {| t_class := %s; t_cfg := %s; t_dim := %d; t_edim := %d; t_sdim := %d;" % (
+                ident, coq_str(cname), coq_str(c["cfg"]), c["dim"], c["edim"], c["sdim"]))
             L.append("  t_adv := [%s];" % "; ".join(coq_str(x) for x in c["advertised"]))
             L.append("  t_tab := [%s] |}." % ";\n    ".join("(%s, %s)" % (coq_str(k), coq_entry(v)) for k, v in c["table"].items()))
     L.append("")
